@@ -178,8 +178,8 @@ def ws_client():
     sends = call_spans(body, r"\.\s*send")
     feeds = call_spans(body, r"\.\s*feed")
     whole = (len(sends) == 1 and not feeds
-             and re.search(r"let (\w+) = msg\s*\.\s*(to_vec|into_wire_bytes)\s*\(\s*\)\s*;", body) is not None
-             and re.search(r"\.\s*send\s*\(\s*WsMessage\s*::\s*Binary\s*\(\s*" + re.search(r"let (\w+) = msg", body).group(1) + r"\s*\)\s*\)", body) is not None)
+             and re.search(r"let (\w+) = msg\b[^;]*\.\s*(to_vec|into_wire_bytes)\s*\(\s*\)\s*;", body) is not None
+             and re.search(r"\.\s*send\s*\(\s*WsMessage\s*::\s*Binary\s*\(\s*" + re.search(r"let (\w+) = msg\b", body).group(1) + r"\s*\)\s*\)", body) is not None)
     lock_pos = body.find(".lock(")
     outside = sum(1 for s, _ in sends if s < lock_pos)
     for name, b in fns_in(src):
@@ -232,7 +232,7 @@ def async_server():
     ignored, ends = 0, 0
     # a timed-out (or failed) write whose arm neither returns nor breaks out of the connection
     first = min(s for s, _ in sites)
-    soft_arms = re.findall(r"Err\s*\(\s*_\s*\)\s*(?:if\b[^=]*?)?=>(?!\s*(?:return|break)\b)", body[max(0, first - 200):])
+    soft_arms = re.findall(r"Err\s*\(\s*_\w*\s*\)\s*(?:if\b[^=]*?)?=>(?!\s*(?:return|break)\b)", body[max(0, first - 200):])
     if soft_arms:
         return dict(singleWriter=single, lockRegions=0, writesOutsideLock=0, wholeWrites=whole, ignoredResults=len(soft_arms),
                     errorEnds=False, cancelSafe=True)
@@ -245,7 +245,7 @@ def async_server():
             continue
         mt = re.search(r"match timeout\s*\(\s*\w+\s*,\s*$", pre)
         if mt:
-            arms = re.match(r"\s*\)\s*\.\s*await\s*\{\s*Ok\s*\(\s*(\w+)\s*\)\s*=>\s*(.*?),\s*Err\s*\(\s*_\s*\)\s*=>\s*(.*?),?\s*\}", post)
+            arms = re.match(r"\s*\)\s*\.\s*await\s*\{\s*Ok\s*\(\s*(\w+)\s*\)\s*=>\s*(.*?),\s*Err\s*\(\s*_\w*\s*\)\s*=>\s*(.*?),?\s*\}", post)
             if not arms:
                 raise ExtractError("async server: unrecognised match on a timed write")
             ok_arm, err_arm = arms.group(2).strip(), arms.group(3).strip()
@@ -283,16 +283,21 @@ def ws_server():
     fo = norm(fn_body(src, "frame_outbound"))
     rets = re.findall(r"Some\s*\(\s*(\w+)\s*\.\s*(\w+)\s*\(\s*\)\s*\)", fo)
     whole_frames_built = bool(rets) and all(meth in ("into_wire_bytes", "to_vec") for _, meth in rets)
-    n_frames = len(re.findall(r"let Some\s*\(\s*bytes\s*\)\s*=\s*frame_outbound\s*\(", wt))
+    names = re.findall(r"let Some\s*\(\s*(\w+)\s*\)\s*=\s*frame_outbound\s*\(", wt)
+    n_frames = len(names)
     bin_sends = re.findall(r"\.\s*send\s*\(\s*WsMessage\s*::\s*Binary\s*\(\s*(\w+)\s*\)\s*\)", wt)
     feeds = call_spans(wt, r"\.\s*feed")
-    whole = whole_frames_built and n_frames > 0 and len(bin_sends) == n_frames and all(b == "bytes" for b in bin_sends) and not feeds
+    whole = whole_frames_built and n_frames > 0 and len(bin_sends) == n_frames and all(b in names for b in bin_sends) and not feeds
     ignored, ends = 0, 0
     for m in re.finditer(r"(\w+)\s*\.\s*send\s*\(\s*WsMessage\s*::\s*Binary\s*\(\s*\w+\s*\)\s*\)", wt):
         pre = wt[max(0, m.start() - 40):m.start()]
         post = wt[m.end():m.end() + 260]
-        if re.search(r"if let Err\s*\(\s*\w+\s*\)\s*=\s*$", pre) and re.match(r"\s*\.\s*await\s*\{[^{}]*\bbreak\s*;\s*\}", post):
-            ends += 1
+        if re.search(r"if let Err\s*\(\s*\w+\s*\)\s*=\s*$", pre):
+            blk = re.match(r"\s*\.\s*await\s*\{([^{}]*)\}", post)
+            if blk and re.search(r"\b(break|return)\b", blk.group(1)):
+                ends += 1
+            else:
+                ignored += 1  # the send error is noted (or not) and the writer carries on
         elif re.search(r"let (\w+) = $", pre):
             fut = re.search(r"let (\w+) = $", pre).group(1)
             mm = re.search(r"match tokio\s*::\s*time\s*::\s*timeout_at\s*\(\s*\w+\s*,\s*" + fut + r"\s*\)\s*\.\s*await\s*\{\s*Ok\s*\(\s*Ok\s*\(\s*\(\s*\)\s*\)\s*\)\s*=>\s*\{\s*\}\s*,?\s*Ok\s*\(\s*Err\s*\(\s*\w+\s*\)\s*\)\s*=>\s*\{[^{}]*\bbreak\s*;\s*\}\s*,?\s*Err\s*\(\s*_\s*\)\s*=>\s*break\s*,?\s*\}", post)
@@ -324,9 +329,10 @@ def ws_proxy():
     fo = norm(fn_body(src, "frame_outbound"))
     rets = re.findall(r"Some\s*\(\s*(\w+)\s*\.\s*(\w+)\s*\(\s*\)\s*\)", fo)
     built = bool(rets) and all(meth in ("into_wire_bytes", "to_vec") for _, meth in rets)
-    n_frames = len(re.findall(r"if let Some\s*\(\s*bytes\s*\)\s*=\s*frame_outbound\s*\(", b))
+    pnames = re.findall(r"if let Some\s*\(\s*(\w+)\s*\)\s*=\s*frame_outbound\s*\(", b)
+    n_frames = len(pnames)
     sends = [m for m in re.finditer(w + r"\s*\.\s*send\s*\(\s*WsMessage\s*::\s*Binary\s*\(\s*(\w+)\s*\)\s*\)", b)]
-    whole = built and n_frames > 0 and len(sends) == n_frames and all(m.group(1) == "bytes" for m in sends) and not call_spans(b, r"\.\s*feed")
+    whole = built and n_frames > 0 and len(sends) == n_frames and all(m.group(1) in pnames for m in sends) and not call_spans(b, r"\.\s*feed")
     uses = [result_use(b, m.start(), m.end()) for m in sends]
     if any(u in ("other", "bound") for u in uses):
         raise ExtractError("ws proxy: unrecognised use of a send result")
